@@ -479,6 +479,8 @@ async fn fn_independent_pre(
             .await?
             .pop()
             .ok_or(Error::EmptyMsg)?;
+        #[cfg(feature = "__verif")]
+        crate::verif::probe("delta", delta.0);
 
         send_to(channel, p_fpre, "random shares", &[secret_bits as u32]).await?;
         let fpre_shares = recv_vec_from(channel, p_fpre, "random shares", secret_bits).await?;
@@ -487,6 +489,8 @@ async fn fn_independent_pre(
         debug!("Using preprocessing without trusted dealer, generating delta and random shares");
         random_shares = FileOrMemBuf::new(ctx.tmp_dir, secret_bits)?;
         delta = Delta(random());
+        #[cfg(feature = "__verif")]
+        crate::verif::probe("delta", delta.0);
         shared_two_by_two = Some(shared_rng_pairwise(channel, p_own, p_max).await?);
         multi_shared_rand = Some(shared_rng(channel, p_own, p_max).await?);
         for chunk_size in chunk_size_iter(secret_bits, ctx.random_shares_batch_size()) {
@@ -700,6 +704,13 @@ async fn garble(
                     let row2_label = label_gamma_0 ^ row2.xor_keys() ^ (row2.bit() & delta);
                     let row3_label = label_gamma_0 ^ row3.xor_keys() ^ (row3.bit() & delta);
 
+                    #[cfg(feature = "__verif")]
+                    let (row0, row1, row2, row3) = (
+                        crate::verif::tap_share_bit("garble_row", w * 4, row0),
+                        crate::verif::tap_share_bit("garble_row", w * 4 + 1, row1),
+                        crate::verif::tap_share_bit("garble_row", w * 4 + 2, row2),
+                        crate::verif::tap_share_bit("garble_row", w * 4 + 3, row3),
+                    );
                     let garbled0 = encrypt(&k0, (row0.bit(), row0.macs(), row0_label))?;
                     let garbled1 = encrypt(&k1, (row1.bit(), row1.macs(), row1_label))?;
                     let garbled2 = encrypt(&k2, (row2.bit(), row2.macs(), row2_label))?;
@@ -856,6 +867,8 @@ async fn input_processing(
             };
             let Share(own_share, Auth(own_macs_and_keys)) = random_input_shares[w].clone();
             let mut masked_input = *input ^ own_share;
+            #[cfg(feature = "__verif")]
+            crate::verif::tap_bool("own_input", w, &mut masked_input);
             for p in 0..p_max {
                 if let Some((_, key)) = own_macs_and_keys.get(p).copied()
                     && p != p_own
@@ -1030,6 +1043,10 @@ fn evaluate(
                     (s, label)
                 }
             };
+            #[cfg(feature = "__verif")]
+            for l in &label {
+                crate::verif::probe("eval_label", l.0);
+            }
             values[inst.out] = value;
             labels_eval[inst.out] = label;
         }
